@@ -4,7 +4,7 @@ import os, random, shutil, subprocess, tempfile, json, glob, concurrent.futures 
 from .. import impl
 
 RULE = ('cases = (a) histories of 6-14+ compile calls over a pool of valid, rejected (inside nested rules / nested mixin calls / endless expansion / cycles) and generated programs in ONE process (random order, repeats, failures '
-        'interleaved; every (rejected, hand-written valid) pair occurs consecutively in some history) vs each program compiled in a fresh process; (b) stream vs file object; (c) 5 hash seeds; (d) 8 threads compiling '
+        'interleaved; every (rejected, hand-written valid) pair occurs consecutively in some history) vs each program compiled in a fresh process, and histories in which every call has its own option vector vs the same (program, options) in a fresh process; (b) stream vs file object; (c) 5 hash seeds; (d) 8 threads compiling '
         'concurrently in one process; (e) 16 processes started together on ONE temporary directory whose yacctab.py is absent / valid / '
         'truncated at a prefix length (every prefix in thorough, sampled in quick) / foreign text / a directory entry; every result must be '
         'byte-identical to the reference; distinct = distinct (history | cache state); non-trivial = the history contains a failure followed by a success, or the cache file is damaged')
@@ -58,7 +58,9 @@ import lesscpy
 out = []
 for t in json.load(open(sys.argv[1])):
     try:
-        if isinstance(t, dict):
+        if isinstance(t, dict) and 'opts' in t:
+            out.append(['ok', lesscpy.compile(io.StringIO(t['text']), **t['opts'])])
+        elif isinstance(t, dict):
             with open(t['path']) as f:
                 out.append(['ok', lesscpy.compile(f)])
         else:
@@ -148,6 +150,27 @@ def run(ctx):
         for h, r in zip(hists, res):
             check('history', h, r, {'history': h})
         dist['histories'] = nh
+        # ---- (a') histories in which every call has its own option vector: the result may depend on the options of THIS call only
+        OPTS = [{}, {'minify': True}, {'xminify': True}, {'tabs': True}, {'spaces': 4}, {'minify': True, 'tabs': True}, {'spaces': 0}, {'xminify': True, 'spaces': 3}]
+        okprogs = [t for t in VALID + gen if ref[t][0] == 'ok']
+        no = (6 if quick else 60) * mult
+        ohists = [[{'text': rng.choice(okprogs), 'opts': rng.choice(OPTS)} for _ in range(rng.randint(8, 14))] for _ in range(no)]
+        uniq = {}
+        for h in ohists:
+            for e in h:
+                uniq.setdefault(json.dumps(e, sort_keys=True), e)
+        ukeys = list(uniq)
+        with cf.ThreadPoolExecutor(16) as ex:
+            orefs = list(ex.map(lambda it: run_proc([uniq[it[1]]], os.path.join(base, 'oref%d' % it[0]))[0], list(enumerate(ukeys))))
+            ores = list(ex.map(lambda it: run_proc(it[1], os.path.join(base, 'ohist%d' % it[0])), list(enumerate(ohists))))
+        oref = {k: norm(r) for k, r in zip(ukeys, orefs)}
+        for h, res1 in zip(ohists, ores):
+            for e, r in zip(h, res1):
+                out['evaluations'] += 1
+                if norm(r) != oref[json.dumps(e, sort_keys=True)]:
+                    out['spec_mismatch'].append({'input': {'history_with_options': h, 'program': e['text'], 'opts': e['opts'], 'kind': 'history with options'},
+                                                 'impl': r[:2], 'spec': list(oref[json.dumps(e, sort_keys=True)]), 'classes': []})
+        dist['histories_with_options'] = no
         nontrivial = sum(1 for h in hists if any(ref[a][0] != 'ok' and ref[b][0] == 'ok' for a, b in zip(h, h[1:])))
         marks['histories'] = round(time.time() - t0, 1)
         # ---- (b) stream vs file object
